@@ -78,6 +78,56 @@ class Tracker:
         return msg, rec
 
 
+class GdbTracker(Tracker):
+    """the same comparisons in GDB mode: every spec becomes a libwayland closure on the symbolic gdb stand-in and reaches the
+    connection manager through the real plugin (breakpoint stop(), extract.py)"""
+    def __init__(self, vprefix=''):
+        from . import gdbsim
+        self.gdbsim = gdbsim
+        self.drv = gdbsim.Driver()
+        self.cm = self.drv.cm
+        self.out, self.err = self.drv.out, self.drv.err
+        self.world = model.MWorld()
+        self.dialect = 'gdb-shaped'
+        self.comma = False
+        self.msgs, self.lines = [], []
+        self.dead_seen = {}
+        self.warnings = 0
+        self.vprefix = vprefix
+        self.tags, self.sides = {}, {}
+        self.parser = None
+
+    def apply(self, spec):
+        P = histgen.protocols()
+        self.lines.append(wire.render(spec, 'new'))
+        tag = spec['conn']
+        if tag not in self.tags:
+            self.tags[tag] = len(self.tags)
+        decl = None
+        if spec['iface'] in P and not (spec['iface'] == 'wl_registry' and spec['name'] == 'bind'):
+            decl = P[spec['iface']].msg(spec['name'])
+        conn = self.tags[tag]
+        if conn not in self.sides:
+            ev = decl.is_event if decl is not None else False
+            self.sides[conn] = 'client' if (spec['sent'] != ev) else 'server'
+        n0 = len(self.drv.ctl.all_messages)
+        self.drv.deliver(self.gdbsim.closure_of_message(spec, self.sides[conn], conn, decl, self.vprefix))
+        rec = self.world.step(spec)
+        got = self.drv.ctl.all_messages[n0:]
+        if len(got) != 1:
+            raise GdbModeLost('%d messages reached the controller for closure %s' % (len(got), self.lines[-1]))
+        self.msgs.append(got[0])
+        self.warnings += len(env.log_capture.take())
+        return got[0], rec
+
+    def close(self):
+        self.drv.close()
+
+
+class GdbModeLost(Exception):
+    pass
+
+
 # ------------------------------------------------------------------------------------------------
 # expected rendering (structure only: enum labels are C07's business, times are C16's)
 
